@@ -79,6 +79,7 @@ impl Parser {
                 let expr = self.expression()?;
 
                 if self.check(&TokenKind::RBrace) {
+                    self.reject_statements_before_value(&stmts)?;
                     self.consume(&TokenKind::RBrace, "}")?;
 
                     return Ok(expr);
@@ -89,6 +90,7 @@ impl Parser {
                 // expression is still the block's value, as it is for a function body
                 while self.match_token(&TokenKind::Semicolon) {}
                 if self.check(&TokenKind::RBrace) {
+                    self.reject_statements_before_value(&stmts)?;
                     self.consume(&TokenKind::RBrace, "}")?;
 
                     return Ok(expr);
@@ -103,9 +105,27 @@ impl Parser {
             }
         }
 
+        self.reject_statements_before_value(&stmts)?;
         self.consume(&TokenKind::RBrace, "}")?;
 
         Ok(Expr::new(ExprKind::Null, self.previous().span))
+    }
+
+    // the block of an if-expression is a single expression: there is no expression node that
+    // could carry statements, so they used to be parsed and then silently dropped
+    fn reject_statements_before_value(&self, stmts: &[Stmt]) -> Result<()> {
+        match stmts.first() {
+            None => Ok(()),
+            Some(first) => Err(CompileError::new(
+                CompileErrorKind::UnexpectedToken {
+                    expected: "a single expression in the block of an if-expression".to_string(),
+                    found: "a statement before the block's value".to_string(),
+                },
+                first.span,
+                Arc::clone(&self.source),
+            )
+            .into()),
+        }
     }
 
     pub(super) fn is_expression_start(&self) -> bool {
